@@ -58,7 +58,56 @@ voter's claim together with the attestation found under the voter's key, or it i
 def TrySite.wellKeyed (t : TrySite) : Bool :=
   (t.att == .voted && t.claim == .voter) || t.claim == .recorded
 
+/-! ## what the handlers read of a claim (the table `handlerView` in Gen/C03.lean is regenerated from the AST) -/
+
+/-- one value a handler reads of a claim -/
+inductive HLeaf where
+  | str (s : Str)
+  | nat (n : Nat)
+  | int (i : Option Int)
+  | bool (b : Bool)
+  | strs (l : List Str)
+  | ints (l : List (Option Int))
+  | members (l : List BridgeValidator)
+  /-- a chain name used only as the index of `externalAddressRouter`: all the code sees is the registered address class -/
+  | kind (k : Option AddrKind)
+  /-- the claim object itself handed to code the translator does not follow -/
+  | whole (what : String)
+  deriving DecidableEq, Repr
+
+/-- one maximal expression rooted at the claim variable inside a keeper function: where, its shape (methods of the claim
+unfolded), and the values it depends on -/
+structure HEntry where
+  fn : String
+  expr : String
+  vals : List HLeaf
+  deriving DecidableEq, Repr
+
+/-! ## byte layout of store keys (the tables `attestationKeyParts` / `pendingClaimKeyParts` are regenerated from key.go) -/
+
+inductive KeyPart where
+  | lit (bytes : List Nat)        -- a package-level prefix
+  | be64 (param : String)         -- `sdk.Uint64ToBigEndian(<uint64 parameter>)`
+  | raw (param : String)          -- `<[]byte parameter>...`
+  | unknown (src : String)
+  deriving DecidableEq, Repr
+
+/-- `sdk.Uint64ToBigEndian`: 8 bytes, most significant first -/
+def be64 (n : Nat) : List Nat :=
+  [n / 2^56 % 256, n / 2^48 % 256, n / 2^40 % 256, n / 2^32 % 256, n / 2^24 % 256, n / 2^16 % 256, n / 2^8 % 256, n % 256]
+
+/-- the bytes a key function builds from its `uint64` argument `n` and its `[]byte` argument `h` -/
+def keyBytes (n : Nat) (h : List Nat) : List KeyPart → List Nat
+  | [] => []
+  | .lit b :: r => b ++ keyBytes n h r
+  | .be64 _ :: r => be64 n ++ keyBytes n h r
+  | .raw _ :: r => h ++ keyBytes n h r
+  | .unknown _ :: r => keyBytes n h r
+
 namespace Go
+
+/-- `externalAddressRouter[name]`: the address class a chain name is registered with (`none`: unrecognized chain) -/
+def chainClass (chains : List (String × AddrKind)) (name : Str) : Option AddrKind := chains.lookup (String.ofList name)
 
 /-! ## package strings -/
 
